@@ -210,6 +210,9 @@ package resolver
 //@   assert at call internal/dnsutil.FilterRRsToZone#1: arg0 == old(resp.Answer) && arg1 == zone
 //@   assert at store dns.Msg.Answer#1: value == lastret("internal/dnsutil.FilterRRsToZone") && calls("internal/dnsutil.FilterRRsToZone") == 1 && calls("(*middleware/resolver.Resolver).checkDname") == 0
 //@   assert at call (*middleware/resolver.Resolver).checkDname#1: calls("internal/dnsutil.FilterRRsToZone") == 1 && arg2 == resp
+//@   # C13: when deciding whether missing signatures are a failure could not be done for a reason local to this request,
+//@   # that error is what answer() returns (the handler then marks the reply request-local and the cache skips it)
+//@   assert at call (*middleware/resolver.Resolver).insecureDelegationProven#1: lastret("(*middleware/resolver.Resolver).zoneSecure#1") && lastret("(*middleware/resolver.Resolver).zoneSecure#1", 1) == nil
 //@   # C01: a non-empty answer section is followed, validated and returned only if it ANSWERS THE QUESTION - holds a
 //@   # record of the question's type or an alias; a genuine signed RRset of another type verifies but is no answer
 //@   assert at call (*middleware/resolver.Resolver).checkDname#1: calls("middleware/resolver.answersQuestion") == 0 || lastret("middleware/resolver.answersQuestion")
@@ -552,27 +555,47 @@ package resolver
 //@
 //@ # unsigned data under a signed zone is accepted only when an insecure delegation between the zone and the name is
 //@ # proven by authenticatedDelegationDS; every other outcome (error, secure all the way, no proof) is "not proven"
+//@ func (*Resolver).insecureDelegationProven
+//@   abstract
+//@   nosafety all pre
+//@   assert at return#4: result0 && result1 == nil && lastret("(*middleware/resolver.Resolver).authenticatedDelegationDS", 1) && lastret("(*middleware/resolver.Resolver).authenticatedDelegationDS", 2) == nil
+//@   assert at return#1: !result0
+//@   # C13 ("failures local to one request ... never become shared state"): a proof that could not be LOOKED FOR because
+//@   # of something local to this request is reported as that error, not as "no proof" (which fails validation for
+//@   # everyone who is then served the recorded failure)
+//@   assert at return#2: !result0 && result1 == lastret("(*middleware/resolver.Resolver).authenticatedDelegationDS", 2) && lastret("middleware.IsRequestLocalResolutionError")
+//@   assert at return#3: !result0 && result1 == nil && !lastret("middleware.IsRequestLocalResolutionError")
+//@   assert at call middleware.IsRequestLocalResolutionError#1: arg0 == lastret("(*middleware/resolver.Resolver).authenticatedDelegationDS", 2)
+//@   assert at return#5: !result0 && result1 == nil
+//@   assert at return#6: !result0 && result1 == nil
+//@   assert at call (*middleware/resolver.Resolver).authenticatedDelegationDS#1: arg2 == curSigner && arg3 == candidate && arg4 == curDS
+//@
+//@ # the boolean views the package's tests use: fail closed on any error
 //@ func (*Resolver).provenInsecureDelegation
 //@   abstract
 //@   nosafety all pre
-//@   assert at return#3: result && lastret("(*middleware/resolver.Resolver).authenticatedDelegationDS", 1) && lastret("(*middleware/resolver.Resolver).authenticatedDelegationDS", 2) == nil
-//@   assert at return#1: !result
-//@   assert at return#2: !result
-//@   assert at return#4: !result
-//@   assert at return#5: !result
-//@   assert at call (*middleware/resolver.Resolver).authenticatedDelegationDS#1: arg2 == curSigner && arg3 == candidate && arg4 == curDS
+//@   assert at return: result == lastret("(*middleware/resolver.Resolver).insecureDelegationProven")
+//@ func (*Resolver).isZoneSecure
+//@   abstract
+//@   nosafety all pre
+//@   assert at return: result == (lastret("(*middleware/resolver.Resolver).zoneSecure") || lastret("(*middleware/resolver.Resolver).zoneSecure", 1) != nil)
 //@
 //@ # a lookup error while deciding whether the zone is signed fails CLOSED (treated as signed)
 //@ # the ROOT zone has no parent and no DS: it is signed because its keys are the configured trust anchors. "No DS" is
 //@ # read as "unsigned" only for a zone that HAS a parent; for the root with trust anchors available a missing
 //@ # signature is a validation failure (an unsigned root answer or denial is never accepted as insecure data)
-//@ func (*Resolver).isZoneSecure
+//@ func (*Resolver).zoneSecure
 //@   abstract
 //@   nosafety all pre
-//@   assert at return#1: result && zone == "." && lastret("(*middleware/resolver.Resolver).hasTrustAnchors")
-//@   assert at return#2: !result && !lastret("middleware/resolver.hasSupportedDS#1") && !(zone == "." && len(parentDS) == 0 && lastret("(*middleware/resolver.Resolver).hasTrustAnchors"))
-//@   assert at return#4: result && lastret("(*middleware/resolver.Resolver).findDS", 1) != nil
-//@   assert at return#5: result == lastret("middleware/resolver.hasSupportedDS#2")
+//@   assert at return#1: result0 && result1 == nil && zone == "." && lastret("(*middleware/resolver.Resolver).hasTrustAnchors")
+//@   assert at return#2: !result0 && result1 == nil && !lastret("middleware/resolver.hasSupportedDS#1") && !(zone == "." && len(parentDS) == 0 && lastret("(*middleware/resolver.Resolver).hasTrustAnchors"))
+//@   assert at return#3: result0 && result1 == nil
+//@   # C13: a probe that was not answered because of something local to this request (shed, over budget, past the
+//@   # deadline) is reported as that error; every other lookup error fails closed
+//@   assert at return#4: !result0 && result1 == lastret("(*middleware/resolver.Resolver).findDS", 1) && lastret("middleware.IsRequestLocalResolutionError")
+//@   assert at call middleware.IsRequestLocalResolutionError#1: arg0 == lastret("(*middleware/resolver.Resolver).findDS", 1) && arg0 != nil
+//@   assert at return#5: result0 && result1 == nil && lastret("(*middleware/resolver.Resolver).findDS", 1) != nil && !lastret("middleware.IsRequestLocalResolutionError")
+//@   assert at return#6: result0 == lastret("middleware/resolver.hasSupportedDS#2") && result1 == nil
 //@
 //@ # ---- C01 / C11: a resolution error reaches the client as SERVFAIL built from the request (with the error's EDE),
 //@ # never as the partial upstream data; the resolver is entered with AD and RD cleared and, when validation is
